@@ -18,6 +18,7 @@ def declare(reg):
         (r".*\.lock_folder\(\)", "lock"),
         (r".*active_mailboxes_lock", "lock"),
         (r"asyncio\.timeout\(.*\)", "timeout"),
+        (r"TemporaryDirectory\(.*\)", "opaque"),
     ]
     # what _p_msg_set produces: ints, "*", and (a, b) with a, b in int | "*"
     reg.union("IntOrStar", ["int", "str"])
